@@ -42,7 +42,18 @@ class SrcError(Exception):
   pass
 
 
-EXC_TYPES = [ValueError, SrcError, KeyError, OSError, RuntimeError]
+class Abort(BaseException):
+  """Raised by the source like SystemExit would be: not an Exception subclass."""
+
+
+class QuietError(Exception):
+  """An exception whose truth value is False (e.g. an error class with __len__ returning 0)."""
+
+  def __bool__(self):
+    return False
+
+
+EXC_TYPES = [ValueError, SrcError, KeyError, OSError, RuntimeError, Abort, QuietError]
 
 
 class Source:
@@ -96,7 +107,7 @@ def run_prefetch_once(ctx, mod, cfg, sched, rng):
       except StopIteration:
         hist.append(('stop',))
         terminal += 1
-      except Exception as e:  # noqa: BLE001
+      except BaseException as e:  # noqa: BLE001
         hist.append(('raise', e))
         terminal += 1
       if terminal >= 3:
@@ -346,6 +357,10 @@ def run_values(ctx):
       ctx.check(tree_eq(jax_utils.unreplicate(r), tree), 'unreplicate', None)
       ctx.op('unreplicate')
       bt = {'x': rng.normal(size=(d * (k + 1), 3)).astype(np.float32), 'y': np.arange(d * (k + 1))}
+      if k % 2:
+        # a batch of examples with an empty feature dimension (no tokens, zero-width crop): still d x per-device x 0
+        bt['z'] = np.zeros((d * (k + 1), 0, 2), np.float32)
+        bt['e'] = np.zeros((d * (k + 1), 0), np.int32)
       s = common_utils.shard(bt)
       ctx.op('shard')
       ctx.check(tree_eq(s, {kk: v.reshape((d, k + 1) + v.shape[1:]) for kk, v in bt.items()}), 'shard', None)
@@ -462,6 +477,11 @@ def run_values(ctx):
       ctx.op('onehot')
       want = np.where(labels[..., None] == np.arange(nc), np.float32(0.9), np.float32(0.1)).astype(np.float32)
       ctx.check(np.asarray(oh).shape == want.shape and np.allclose(np.asarray(oh), want), 'onehot', None)
+      # on / off values of different Python types ("defaults to 1.0" / "0.0": an int for one of them is the same number)
+      on_v, off_v = [(1, 0.0), (1.0, 0), (2, 0.5), (True, 0.25)][k % 4]
+      oh3 = common_utils.onehot(jnp.asarray(labels), nc, on_value=on_v, off_value=off_v)
+      want3 = np.where(labels[..., None] == np.arange(nc), np.float32(on_v), np.float32(off_v)).astype(np.float32)
+      ctx.check(np.asarray(oh3).dtype == np.float32 and np.array_equal(np.asarray(oh3), want3), 'onehot:mixed_value_types', lambda: dict(on=repr(on_v), off=repr(off_v)))
       # narrow label dtypes with more classes than the dtype can count (a class index vector built in the label dtype would wrap)
       ldt = ['uint8', 'int8', 'int16', 'uint16', 'int32', 'int64', 'uint8', 'int8'][k]
       nc2 = [300, 300, 40000, 70000, 300, 7, 1000, 257][k]
